@@ -95,6 +95,22 @@ func (p *Prop[C]) Exec(t *rapid.T, c C) {
 	t.Fatalf("%s", f.Error())
 }
 
+// Report handles the outcome of a case that was executed by the caller (used by scenario properties, which interleave
+// generation and execution): classification against known findings, failure dump and test failure.
+func (p *Prop[C]) Report(t *rapid.T, c C, f *Failure) {
+	if f == nil {
+		return
+	}
+	if p.Classify != nil {
+		if id := p.Classify(c, f); id != "" && known.Open(id) {
+			stats.Known(id)
+			return
+		}
+	}
+	stats.Fail(p.Name, c, f.Error())
+	t.Fatalf("%s", f.Error())
+}
+
 // ExecT is Exec for plain tests (exhaustive enumerations that do not use rapid).
 func (p *Prop[C]) ExecT(t *testing.T, c C) bool {
 	stats.Eval(p.Name)
